@@ -137,6 +137,11 @@ def gen_default(rnd, f):
                        ("int", 100)])
 
 
+def scalar_union(f):
+    """AnyOf of scalar fields (and None): takes a scalar default with `=` (AnyOf has no default= argument)."""
+    return f["t"] == "anyof" and all(g["t"] in DEFAULT_OK_CLASSES + ("none",) for g in f["fs"])
+
+
 def has_none_member(f):
     return f["t"] == "anyof" and any(g["t"] == "none" for g in f["fs"])
 
@@ -149,7 +154,7 @@ def decl_forms(fd, rnd, ctx):
     fieldy = [s for s in P.forms(f, "fieldy", rnd) if union_kept(s, ctx)]
     for s in general:
         self_marking = s[0] in ("union", "optional") and has_none_member(f)
-        if self_marking and not opt:
+        if self_marking and not opt and d is None:
             continue                          # would make the field optional: not a spelling of this member
         out.append({"annot": True, "ty": s, "eq": d, "kw": None, "opt": opt})
         if self_marking:                      # the typing spelling marks the field optional by itself
@@ -193,9 +198,11 @@ def gen_class_case(rnd, idx, ctx, max_depth):
     for name in NAMES[:nf]:
         f = gen_semantic_field(rnd, ctx, max_depth)
         d = None
-        if f["t"] in DEFAULT_OK_CLASSES and rnd.random() < 0.45 and n_bad_default == 0:
+        if (f["t"] in DEFAULT_OK_CLASSES or scalar_union(f)) and rnd.random() < 0.45 and n_bad_default == 0:
             d = gen_default(rnd, f)
-            if not default_valid(f, d, ctx):
+            if d == ("none",):
+                d = None                   # `= None` is "no default" for typedpy: outside the explored space
+            if d is not None and not default_valid(f, d, ctx):
                 n_bad_default += 1         # at most one rejected default per class (exception precedence)
         p_opt = 0.6 if has_none_member(f) else 0.25
         members.append({"name": name, "f": f, "opt": rnd.random() < p_opt and d is None, "default": d})
@@ -306,6 +313,9 @@ DEFAULT_LATTICE_FIELDS = [
     {"t": "num", "k": "Float", "s": "Any"}, {"t": "num", "k": "Float", "s": "Any", "max": ("int", -1)},
     {"t": "num", "k": "Number", "s": "Positive"}, {"t": "num", "k": "Integer", "s": "NonNegative"},
     {"t": "str"}, {"t": "str", "min": 2}, {"t": "str", "max": 1}, {"t": "bool"},
+    {"t": "anyof", "fs": [{"t": "num", "k": "Integer", "s": "Any"}, {"t": "none"}]},
+    {"t": "anyof", "fs": [{"t": "none"}, {"t": "str", "min": 2}, {"t": "num", "k": "Float", "s": "Any"}]},
+    {"t": "anyof", "fs": [{"t": "num", "k": "Integer", "s": "Positive"}, {"t": "str"}]},
 ]
 DEFAULT_LATTICE_VALUES = [0, 0.0, "", False, 1, 5, -3, 2.5, "ab", True]
 
@@ -320,6 +330,8 @@ def default_lattice(ctx, idx0, tier):
         for dv in DEFAULT_LATTICE_VALUES:
             m = {"name": "a", "f": dict(f), "opt": False, "default": E.reify(dv)}
             forms = decl_forms(m, rnd, ctx)
+            if has_none_member(f):     # the typing spellings mark the field optional: also declare it so
+                forms += decl_forms(dict(m, opt=True), rnd, ctx)
             if len(forms) < 2:
                 continue
             variants = [{"decls": [forms[0]], "changed": None}] + [{"decls": [x], "changed": 0} for x in forms[1:]]
